@@ -533,7 +533,7 @@ Proof.
   cbv zeta. unfold arena_alloc_at. destruct (a_pinned a) eqn:P; [cbn; auto|].
   destruct commit.
   - destruct (negb (bm_all_set _ idx blocks)); [|cbn; auto].
-    destruct (os_commit oracle o (arena_block_start a idx) (wmul blocks BLOCK)); cbn; auto.
+    destruct (os_commit oracle o (arena_block_start a idx) (wmul blocks BLOCK)) as [o1 ok]; destruct ok; cbn; auto.
   - destruct (negb (bm_all_set _ idx blocks) && (0 <? bm_count _ idx blocks)); cbn; auto.
 Qed.
 
